@@ -434,6 +434,10 @@ class MCNF(Model):
     def nv(self):
         return max([abs(l) for c in self.clauses for l in c] or [0])
 
+    def copy(self):
+        """pysat's CNF.copy(): a formula of its own with copies of the clauses."""
+        return type(self)(from_clauses=self.clauses)
+
     def __iter__(self):
         return iter(self.clauses)
 
